@@ -61,6 +61,17 @@ type VerifFibNode struct {
 	Nexthops string
 	Strategy string
 	Children int
+	// NexthopOrder is the next-hop list in its actual (private) order: canonical states must
+	// distinguish it, since update code may depend on the order.
+	NexthopOrder string
+}
+
+func nhOrder(nh []*FibNextHopEntry) string {
+	s := make([]string, 0, len(nh))
+	for _, h := range nh {
+		s = append(s, fmt.Sprintf("%d:%d", h.Nexthop, h.Cost))
+	}
+	return strings.Join(s, ">")
 }
 
 // VerifDumpFib returns a canonical dump of the private structure of a FIB.
@@ -73,7 +84,7 @@ func VerifDumpFib(f FibStrategy) (nodes []VerifFibNode, aux []string) {
 			if n.strategy != nil {
 				st = n.strategy.String()
 			}
-			nodes = append(nodes, VerifFibNode{Path: path.String(), NameSet: n.name != nil, Nexthops: nhString(n.nexthops), Strategy: st, Children: len(n.children)})
+			nodes = append(nodes, VerifFibNode{Path: path.String(), NameSet: n.name != nil, Nexthops: nhString(n.nexthops), Strategy: st, Children: len(n.children), NexthopOrder: nhOrder(n.nexthops)})
 			for _, c := range n.children {
 				walk(c, append(append(enc.Name{}, path...), c.component))
 			}
@@ -88,7 +99,7 @@ func VerifDumpFib(f FibStrategy) (nodes []VerifFibNode, aux []string) {
 			if e.strategy != nil {
 				st = e.strategy.String()
 			}
-			nodes = append(nodes, VerifFibNode{Path: e.name.String(), NameSet: true, Nexthops: nhString(e.nexthops), Strategy: st})
+			nodes = append(nodes, VerifFibNode{Path: e.name.String(), NameSet: true, Nexthops: nhString(e.nexthops), Strategy: st, NexthopOrder: nhOrder(e.nexthops)})
 		}
 		for h, v := range t.virtTable {
 			names := []string{}
@@ -117,6 +128,8 @@ type VerifRibNode struct {
 	NameSet  bool
 	Routes   string
 	Children int
+	// RouteOrder: routes in their actual slice order
+	RouteOrder string
 }
 
 func VerifDumpRib() (nodes []VerifRibNode) {
@@ -126,8 +139,9 @@ func VerifDumpRib() (nodes []VerifRibNode) {
 		for _, r := range n.routes {
 			rs = append(rs, fmt.Sprintf("f%d/o%d/c%d/fl%d", r.FaceID, r.Origin, r.Cost, r.Flags))
 		}
+		ord := strings.Join(rs, ">")
 		sort.Strings(rs)
-		nodes = append(nodes, VerifRibNode{Path: path.String(), NameSet: n.Name != nil, Routes: strings.Join(rs, ","), Children: len(n.children)})
+		nodes = append(nodes, VerifRibNode{Path: path.String(), NameSet: n.Name != nil, Routes: strings.Join(rs, ","), Children: len(n.children), RouteOrder: ord})
 		for c := range n.children {
 			walk(c, append(append(enc.Name{}, path...), c.component))
 		}
